@@ -289,6 +289,49 @@ def run(chk, R, tier, seed):
         fresh_cases.append(Case(steps, judge, isolate=True))
     chk.require("near misses of table codes rejected")
 
+    # ---- "with no money converter active": also after a converter WAS
+    # active and its with-block has been left, normally or by an exception
+    MC = ["g", "quantity.money:MoneyConverter"]
+    for j in range(8 if tier == "quick" else 60):
+        a, b = rng.sample(["EUR", "USD", "GBP", "JPY", "CHF"], 2)
+        leave = rng.choice(["normal", "exc", "exc"])
+        steps = [{"e": reg(a)}, {"e": reg(b)},
+                 {"id": "mc", "e": ["c", MC, [U(a)]]},
+                 {"e": M(V("mc"), "update", ["none"],
+                         ["l", [["t", [U(b), ["D", "1.25"], ["i", 1]]]]])},
+                 {"with": V("mc"), "k": "with",
+                  "body": [{"k": "in", "e": OP("+", Q(["i", 10], a),
+                                               Q(["i", 10], b))}],
+                  "raise": "marker" if leave == "exc" else None},
+                 {"k": "add", "e": OP("+", Q(["i", 10], a), Q(["i", 10], b))},
+                 {"k": "lt", "e": OP("<", Q(["i", 10], a), Q(["i", 10], b))},
+                 {"k": "conv", "e": M(Q(["i", 10], a), "convert", U(b))},
+                 {"k": "eq", "e": OP("==", Q(["i", 8], a), Q(["i", 10], b))}]
+
+        def judge(obs, rec, case, a=a, b=b, leave=leave, steps=steps):
+            if obs is None or "add" not in obs:
+                chk.inconclusive_because("after-converter case not observed")
+                return
+            if obs.get("in", {}).get("k") != "Q":
+                chk.count("converter block did not convert (C12's)")
+                return
+            chk.case(("after converter", a, b, leave))
+            chk.count("mixing after a converter block was left|" + leave)
+            bad = []
+            for k in ("add", "lt", "conv"):
+                if not is_exc(obs.get(k), "UnitConversionError"):
+                    bad.append("%s gives %s" % (k, brief(obs.get(k))))
+            if obs.get("eq", {}).get("v") is not False:
+                bad.append("8 %s == 10 %s is %s" % (a, b,
+                                                    brief(obs.get("eq"))))
+            if bad:
+                chk.violation("after a converter block was left (%s), %s and "
+                              "%s still mix: %s" % (leave, a, b,
+                                                    "; ".join(bad)),
+                              dict(obs=obs, steps=steps), "mixing|after-with")
+        fresh_cases.append(Case(steps, judge, isolate=True))
+    chk.require("mixing after a converter block was left|exc")
+
     # ---- user-declared currencies
     fracs = [F(1, 20), F(1, 4), F(1, 2), F(1, 1000), F(1, 8), F(1, 5),
              F(1, 100), F(1, 10 ** 6)]
